@@ -105,3 +105,6 @@ def run(ctx):
     # the recorded-deps model (coq/Engine/HistDepsDefs.v, theorems of Properties_C10hist.v) run against the real engine: histories in
     # fragment ABD (deps = gcc statements with hidden reads); the two listed findings have to show up identically on both sides
     histmodel.hook(ctx, 'C10', deps=True, quick=300, thorough=3000, key='hist_model_recorded_deps')
+    # ... and the depfile-only model (coq/Engine/HistDepfileDefs.v, theorems of Properties_C10depfile.v): `depfile = X` statements without
+    # `deps =`, also mixed with deps = gcc ones; the depfiles on disk are part of the compared state
+    histmodel.hook(ctx, 'C10', deps='depfile', quick=250, thorough=3000, key='hist_model_depfile_only')
